@@ -241,7 +241,7 @@ def run(shard, rec):
                 w = runner.run_spec(m, t, no_prss, spec, policy, sseed, world_kwargs={'no_barrier': nb, 'drain_after': True})
                 rec.count('runs')
                 rec.count('runs_no_barrier', int(nb))
-                feats = {'asymmetric_yield': progs.timing_skew(spec), 'deferred_bump': bool(w.deferred_bumps)}      # any source of timing skew between the parties (F-C08-1's condition)
+                feats = {'asymmetric_yield': spec.get('sleepy') is not None or (no_prss and progs.timing_skew(spec)), 'deferred_bump': bool(w.deferred_bumps)}      # F-C08-1's condition: one party yields, or (F-C01-2) without PRSS a public/opened value is awaited mid-program
                 n, frames, done = check_world(w, rec, f'{shard["name"]} program {pi} policy {policy}', {'case': case, 'spec': spec, 'policy': policy, 'sched_seed': sseed}, feats)
                 rec.count('runs_completed' if done else 'runs_not_completed')
                 rec.case([shard['name'], pi, w.sched_sig()], nontrivial=frames > 0,
